@@ -1,6 +1,6 @@
 (* C10: resource selectors mean the same thing in every processor. *)
 From Coq Require Import List ZArith Bool.
-From DF Require Import Base.Str Base.Value Base.Regex Base.Selector Base.Selector_proofs Base.Sites Gen.Consts.
+From DF Require Import Base.Str Base.Value Base.Regex Base.Regex_proofs Base.Selector Base.Selector_proofs Base.Sites Gen.Consts.
 Import ListNotations.
 Open Scope Z_scope.
 
@@ -15,6 +15,18 @@ Theorem C10_string_selects_fullmatch : forall r names,
   exists m, resolve (SRegex r) names = Ok m /\ forall n, m n = fullmatch r n.
 Proof. exact resolve_regex. Qed.
 Print Assumptions C10_string_selects_fullmatch.
+
+(* ... and the executable matcher decides the language of the expression (the usual inductive
+   relation Matches: concatenation, alternation, iteration, one admissible character), so a string
+   selects exactly the names that belong to the regular expression's language *)
+Theorem C10_fullmatch_is_language_membership : forall r n, fullmatch r n = true <-> Matches r n.
+Proof. exact fullmatch_spec. Qed.
+Print Assumptions C10_fullmatch_is_language_membership.
+
+Theorem C10_string_selects_language : forall r names,
+  exists m, resolve (SRegex r) names = Ok m /\ forall n, m n = true <-> Matches r n.
+Proof. exact resolve_regex_language. Qed.
+Print Assumptions C10_string_selects_language.
 
 (* a list selects exactly the listed names *)
 Theorem C10_list_selects_listed : forall l names,
